@@ -279,12 +279,22 @@ pub fn valid_layering(
             missing, extra
         ));
     }
+    // "depends on" is transitive: when the requested set is not closed under dependencies (the
+    // changed targets), a dependency that runs through targets outside the set still orders its ends
+    let closed = expect.iter().all(|&t| adj[t].iter().all(|u| expect.contains(u)));
     for &t in expect {
-        for &u in &adj[t] {
-            if expect.contains(&u) && level[&t] <= level[&u] {
+        // (for a set that is closed under dependencies the direct edges imply the rest)
+        let reach: BTreeSet<usize> = if closed { adj[t].iter().copied().collect() } else { closure(adj, &[t]) };
+        for &u in &reach {
+            if u != t && expect.contains(&u) && level[&t] <= level[&u] {
+                let direct = adj[t].contains(&u);
                 return Err(format!(
-                    "node {} (group {}) depends on node {} (group {}), which is not strictly earlier",
-                    t, level[&t], u, level[&u]
+                    "node {} (group {}) depends on node {}{} (group {}), which is not strictly earlier",
+                    t,
+                    level[&t],
+                    u,
+                    if direct { "" } else { " through other targets" },
+                    level[&u]
                 ));
             }
         }
